@@ -47,11 +47,81 @@ CLAIMS = {
         "note": NOTE_COMMON + "Clause (iv) 'identifiers never reused' is a hypothesis of the property that the builder itself can break (DESIGN S2); the driver flags index reuse and then only checks clauses 1-2. petgraph::StableGraph is modelled, not verified.",
         "technique": TECH,
     },
+    "C01": {
+        "category": "proof",
+        "design_ref": 'DESIGN.md §5 C01',
+        "text": "PARTIAL towards the targets c01_string_target / c01_matrix_target / port-graph target (Props/Targets.lean). Proved, for every automaton, domain and host: T-RUN-SOUND (trun_sound, mem_emitMatches: every reported match is emitted at a configuration reachable along transitions whose constraints evaluated to true on the binding current at that step, and binds the pattern's key list through bind_all/retain_keys), trun_expanded; T-DOM soundness halves (tdom_str_sat_iff, tdom_mat_sat_iff: the constraints of a pattern hold under the canonical binding iff the pattern occurs there; tdom_*_keys/covers: every cell is mentioned, after the F2 fix; tdom_mat_old_unsound: the pinned matrix conversion violated C01). Missing for the full statement: T-BUILD (in progress) and the anchored-traversal theorem linking path constraints to the final binding. Decided per run for the automata actually built and the hosts generated by: exact replay of every build (model = code, state ids and edge ids included), model traversal on the dumped automaton, and the executable occurrence oracle evaluated on the implementation's own matches. Port graphs: the reported node map must be an injective link-preserving embedding (checked, not searched).",
+        "note": NOTE_COMMON + "Hash-iteration order is an explicit, logged and replayed choice sequence; FxHasher in visit() is modelled as injective; usize as Nat.",
+        "technique": TECH,
+    },
+    "C02": {
+        "category": "proof",
+        "design_ref": 'DESIGN.md §5 C02, §4 F3',
+        "text": "PARTIAL towards c02_string_target / c02_matrix_target / c02_pg_target. Proved for every automaton/domain/host: BFS closure of the traversal (trun_closed: the root configuration and every successor of an expanded configuration is expanded up to the visited-set projection; trun_reach_least: Reach is the least set closed under next_legal_states), T-DOM completeness halves (an occurrence satisfies every constraint under the canonical binding; the last key is always mentioned so short hosts cannot match). Missing: T-BUILD, losslessness of scope pruning for anchored domains. Decided per run for the automata actually built and the hosts generated by: exact replay of every build (model = code, state ids and edge ids included), model traversal on the dumped automaton, and the executable occurrence oracle evaluated on the implementation's own matches. Port graphs: brute-force embedding search in Lean; misses inside the signature pg:multiRoot are the known finding F3b; F3a (line through its start node) was repaired (fix: commit) and its witness is a fixed case.",
+        "note": NOTE_COMMON + "Hash-iteration order is an explicit, logged and replayed choice sequence; FxHasher in visit() is modelled as injective; usize as Nat.",
+        "technique": TECH,
+    },
+    "C03": {
+        "category": "proof",
+        "design_ref": 'DESIGN.md §5 C03, §4 F4',
+        "text": "PARTIAL. Proved: T-SINGLE for every domain (tsingle_eq: the baseline's FIFO loop equals the level-by-level fold, order included; tsingle_exact/_mem: a binding is reported iff it is derivable by extending the empty binding constraint by constraint with offered values and every constraint evaluates to true; tsingle_sound via satOrFalse_mono; tnaive_ids), T-RUN-SOUND / closure for the automaton side; T-BUILD (propositional equivalence of the compiled automaton with the conjunction of each pattern's constraints, for every event log) is being proved against the guarded model (Proofs/ by agent, see DESIGN). Decided per run for the automata actually built and the hosts generated by: exact replay of every build (model = code, state ids and edge ids included), model traversal on the dumped automaton, and the executable occurrence oracle evaluated on the implementation's own matches. Four-way comparison per record: real ManyMatcher vs real NaiveManyMatcher (the C03 oracle, per pattern id, full match data) vs model traversal vs model baseline; string, matrix, port-graph and table domain with 5 contract-conforming tree strategies. F4 (make_det dropped the fallback state's accepted patterns) was found by this check and repaired; known finding F5 (baseline ignores Pattern::required_bindings) is reported by signature.",
+        "note": NOTE_COMMON + "Hash-iteration order is an explicit, logged and replayed choice sequence; FxHasher in visit() is modelled as injective; usize as Nat.",
+        "technique": TECH,
+    },
+    "C04": {
+        "category": "proof",
+        "design_ref": 'DESIGN.md §5 C04',
+        "text": "PARTIAL towards c04_string_target (independence of the event log = heuristic answers and hash-order choices). It is a corollary of T-BUILD + the anchored traversal theorem, both not yet closed; proved so far: the traversal side (trun_expanded, trun_closed) for any automaton. Decided per run for the automata actually built and the hosts generated by: exact replay of every build (model = code, state ids and edge ids included), model traversal on the dumped automaton, and the executable occurrence oracle evaluated on the implementation's own matches. The check enumerates ALL 2^m answer strings when a build asks m <= 5 (quick) / 9 (thorough) questions, replays each build exactly and compares the match multisets (strings, matrices) resp. sets (table, port graphs) across all variants in Lean (HSUM records).",
+        "note": NOTE_COMMON + "Hash-iteration order is an explicit, logged and replayed choice sequence; FxHasher in visit() is modelled as injective; usize as Nat.",
+        "technique": TECH,
+    },
+    "C05": {
+        "category": "proof",
+        "design_ref": 'DESIGN.md §5 C05',
+        "text": "Generic part FULL: tsingle_eq / tsingle_exact / tsingle_mem / tsingle_sound / tsingle_complete characterise SinglePatternMatcher::get_all_bindings for every domain as 'exactly the bindings derivable by extending with offered values such that every constraint holds, retained to the requested keys, all requested keys bound'; tnaive_ids: NaiveManyMatcher labels by input position, duplicates included. Domain part: tdom_str_sat_iff / tdom_mat_sat_iff turn 'all constraints hold under the canonical binding' into the occurrence semantics. The composition c05_string / c05_matrix (exact result list = occurrences, one each) is being proved (agent); until it lands this is PARTIAL for the composed statement. Decided per run for the automata actually built and the hosts generated by: exact replay of every build (model = code, state ids and edge ids included), model traversal on the dumped automaton, and the executable occurrence oracle evaluated on the implementation's own matches. Port graphs: sound (embedding check) and complete against brute-force embedding search outside the known-finding signature pg:multiRoot. Weighted port graphs are not exercised.",
+        "note": NOTE_COMMON + "Hash-iteration order is an explicit, logged and replayed choice sequence; FxHasher in visit() is modelled as injective; usize as Nat.",
+        "technique": TECH,
+    },
+    "C06": {
+        "category": "proof",
+        "design_ref": 'DESIGN.md §5 C06',
+        "text": "Construction-level clauses FULL (Props/C06.lean): c06_ids_are_positions (the builder is handed exactly (position, constraints, extra keys) of the convertible patterns in input order — no renumbering, duplicates keep their positions), c06_fail_iff (Fail mode returns the conversion error iff some pattern is not convertible), c06_skip_total, c06_get_pattern (get_pattern/n_patterns reflect exactly the compiled ids). The semantic clause (results of a pattern do not depend on the other patterns) is a corollary of T-BUILD's right-hand side being pointwise in the id — PARTIAL until T-BUILD and the anchored traversal theorem close. Decided per run for the automata actually built and the hosts generated by: exact replay of every build (model = code, state ids and edge ids included), model traversal on the dumped automaton, and the executable occurrence oracle evaluated on the implementation's own matches. Variants whole / alone / permuted / sub-multiset with duplicates are compared per original pattern in Lean (SSUM records); port-graph sets contain root-less (non-convertible) patterns under both fallback modes.",
+        "note": NOTE_COMMON + "Hash-iteration order is an explicit, logged and replayed choice sequence; FxHasher in visit() is modelled as injective; usize as Nat.",
+        "technique": TECH,
+    },
+    "C07": {
+        "category": "proof",
+        "design_ref": 'DESIGN.md §5 C07, §4 S1',
+        "text": "PARTIAL towards c07_string_target. Proved (layer 2 of DESIGN's plan, for any automaton and domain): trun_expanded — the visited list is duplicate-free, i.e. each (state, projection of the binding on scope and match keys) is expanded and has its accepted patterns emitted at most once, and the output is exactly the concatenation of these emissions. Missing: unambiguity of the built automaton (all accepting runs of a pattern for one anchor end in the same (state, extent)), a statement about the builder. Decided per run for the automata actually built and the hosts generated by: exact replay of every build (model = code, state ids and edge ids included), model traversal on the dumped automaton, and the executable occurrence oracle evaluated on the implementation's own matches. Exactly-once is checked as a multiset equality with the occurrence oracle on every string/matrix record, all heuristic kinds and all 2^m answer strings of C04's sweep.",
+        "note": NOTE_COMMON + "Hash-iteration order is an explicit, logged and replayed choice sequence; FxHasher in visit() is modelled as injective; usize as Nat.",
+        "technique": TECH,
+    },
+    "C08": {
+        "category": "proof",
+        "design_ref": 'DESIGN.md §5 C08',
+        "text": "PARTIAL: totality is proved function by function where the model is total or fuelled: c12_missing/c12_all (missing_bindings terminates on every acyclic scheme), c10_powerset_terminates (2^(n+1) iterations), c10_charTree_total and tdom_*_arity (conversion and decomposition never hit an unwrap/panic for arity-correct constraints, which try_to_constraint_vec always produces), c15_terminates_bound (online toposort), c16_*_check_total (predicates never panic at matching arity), c14_mat_get_no_panic / c14_*_retain (position maps under their invariants), c14_generic_run_total, trun_fuel_mono. Targets not reached: termination of finish for all pattern sets (needs the C09 global invariants) and the traversal's termination bound. Decided per run: every case of every stage runs under catch_unwind with overflow checks and debug assertions on; a panic of the implementation on a well-formed input is a C08 oracle failure, any panic the model does not predict is a disagreement.",
+        "note": NOTE_COMMON + "Hash-iteration order is an explicit, logged and replayed choice sequence; FxHasher in visit() is modelled as injective; usize as Nat.",
+        "technique": TECH,
+    },
+    "C11": {
+        "category": "proof",
+        "design_ref": 'DESIGN.md §5 C11',
+        "text": "Specification half FULL for strings and matrices: c11_occursStr_self, c11_occursStr_extend (prefix and suffix of any length), c11_occursMat_self, c11_occursMat_extend_rows / _above / _right. The property itself is C01 o extend o C02, so it inherits their PARTIAL status; port-graph spec lemmas (embedsPG_self / _extend) are being proved (agent). Decided per run for the automata actually built and the hosts generated by: exact replay of every build (model = code, state ids and edge ids included), model traversal on the dumped automaton, and the executable occurrence oracle evaluated on the implementation's own matches. Metamorphic EXT records: chains of 1-5 extension steps, both matchers re-run on every host, every earlier (pattern, anchor) must be reported at the transported anchor later.",
+        "note": NOTE_COMMON + "Hash-iteration order is an explicit, logged and replayed choice sequence; FxHasher in visit() is modelled as injective; usize as Nat.",
+        "technique": TECH,
+    },
+    "C17": {
+        "category": "translation_validation",
+        "design_ref": "DESIGN.md §5 C17",
+        "text": "Partial by nature: a theorem cannot speak about address-space layout or hasher seeds. Three separate processes with different allocation history and environment must print byte-identical digests (number of states, hash of dot_string, hash of the event log = every hash-order choice of the builder, hash of the exact match sequence) for 450 (quick) cases; every matcher is also built twice in-process; the exact replay (stage e2e.str) shows that the logged choice points are the only inputs of a build besides patterns and heuristic answers, so reproducibility of the log is reproducibility of the automaton.",
+        "note": "Trusted: the harness and check.py; FxHasher is unseeded (rustc-hash 1.1). Not examined: other machines, toolchains, or hashers.",
+        "technique": "three-process digest comparison + exact replay of the event log in the Lean model",
+    },
 }
 
 NOT_APPLICABLE = [
     {"property_id": p, "reason": "not yet claimed in this round: model / theorems / correspondence stage under construction (see DESIGN.md §7 build order); no technique switch intended"}
-    for p in ["C01", "C02", "C03", "C04", "C05", "C06", "C07", "C08", "C09", "C11", "C17"]
+    for p in ["C09"]
 ]
 
 NOTES = "See DESIGN.md. Every check re-checks its Lean theorems (lake build + #print axioms audit), rebuilds the harness against /repo's working tree, runs the correspondence for the stages in the property's cone and evaluates the property's executable oracle on the implementation's outputs."
